@@ -425,3 +425,86 @@ Proof.
       * intros r Hr. destruct (B r Hr). lia.
       * unfold bm_Inv, runs_inv. cbn [bm_c bm_card]. unfold bm_lenN. rewrite L. repeat split; [exact R1|lia|lia].
 Qed.
+
+(* ---- every truncation of a valid encoding is rejected ---- *)
+Lemma decode_truncated_array card R cap tl len :
+  arr_ok card R cap -> len < 5 + 2 * card ->
+  fst (bm_decode ((0 :: le_bytes 4 card ++ bm_enc_u16s (rev R)) ++ tl) len) = None.
+Proof.
+  intros (Hc & Hs & Hb & Hcap) Hlen.
+  assert (Hle : bm_lenN R <= 65536).
+  { pose proof (sorted_length_le (rev R) Hs) as H. rewrite lenN_rev in H. apply H. intros x Hx. apply Hb, in_rev. exact Hx. }
+  set (pay := bm_enc_u16s (rev R)).
+  set (z := (0 :: le_bytes 4 card ++ pay) ++ tl).
+  assert (E0 : bm_nthN z 0 = 0) by reflexivity.
+  assert (E1 : bm_rd z 1 4 = le_bytes 4 card).
+  { unfold z. change (0 :: le_bytes 4 card ++ pay) with ([0] ++ le_bytes 4 card ++ pay).
+    rewrite <- !app_assoc. apply rd_app'; [reflexivity|rewrite lenN_le_bytes; reflexivity]. }
+  unfold bm_decode. fold z. rewrite E0, E1, of_le_4 by lia.
+  destruct (len <? 5) eqn:C1; [reflexivity|].
+  destruct ((2 <? 0) || (65536 <? card)) eqn:C2; [reflexivity|].
+  change (0 =? 0) with true. cbv iota.
+  destruct ((len - 5) / 2 <? card) eqn:C3; [reflexivity|lia].
+Qed.
+
+Lemma decode_truncated_bits card m tl len :
+  bits_ok card m -> len < 5 + 8192 ->
+  fst (bm_decode ((1 :: le_bytes 4 card ++ map (bm_mget m) bm_byte_idx) ++ tl) len) = None.
+Proof.
+  intros (Hb & Hc) Hlen. pose proof (popsum_le m) as Hle.
+  set (pay := map (bm_mget m) bm_byte_idx).
+  set (z := (1 :: le_bytes 4 card ++ pay) ++ tl).
+  assert (E0 : bm_nthN z 0 = 1) by reflexivity.
+  assert (E1 : bm_rd z 1 4 = le_bytes 4 card).
+  { unfold z. change (1 :: le_bytes 4 card ++ pay) with ([1] ++ le_bytes 4 card ++ pay).
+    rewrite <- !app_assoc. apply rd_app'; [reflexivity|rewrite lenN_le_bytes; reflexivity]. }
+  unfold bm_decode. fold z. rewrite E0, E1, of_le_4 by lia.
+  destruct (len <? 5) eqn:C1; [reflexivity|].
+  destruct ((2 <? 1) || (65536 <? card)) eqn:C2; [reflexivity|].
+  change (1 =? 0) with false. change (1 =? 1) with true. cbv iota.
+  destruct (len - 5 <? 8192) eqn:C3; [reflexivity|lia].
+Qed.
+
+Lemma decode_truncated_runs card runs cap tl len :
+  runs_inv card runs cap -> len < 5 + 4 + 4 * bm_lenN runs ->
+  fst (bm_decode ((2 :: le_bytes 4 card ++ le_bytes 4 (bm_lenN runs) ++ bm_enc_runs runs) ++ tl) len) = None.
+Proof.
+  intros (Hr & Hc & Hcap) Hlen.
+  pose proof (runs_sum_le 0 runs Hr) as Hle. pose proof (runs_count_le 0 runs Hr) as Hcnt.
+  set (nr := bm_lenN runs) in *.
+  set (pay := bm_enc_runs runs).
+  set (z := (2 :: le_bytes 4 card ++ le_bytes 4 nr ++ pay) ++ tl).
+  assert (E0 : bm_nthN z 0 = 2) by reflexivity.
+  assert (E1 : bm_rd z 1 4 = le_bytes 4 card).
+  { unfold z. change (2 :: le_bytes 4 card ++ le_bytes 4 nr ++ pay) with ([2] ++ le_bytes 4 card ++ (le_bytes 4 nr ++ pay)).
+    rewrite <- !app_assoc. apply rd_app'; [reflexivity|rewrite lenN_le_bytes; reflexivity]. }
+  assert (E5 : bm_rd z 5 4 = le_bytes 4 nr).
+  { unfold z. replace ((2 :: le_bytes 4 card ++ le_bytes 4 nr ++ pay) ++ tl)
+      with ((2 :: le_bytes 4 card) ++ le_bytes 4 nr ++ (pay ++ tl))
+      by (cbn [app]; rewrite <- !app_assoc; reflexivity).
+    apply rd_app'; [rewrite lenN_cons, lenN_le_bytes; reflexivity|rewrite lenN_le_bytes; reflexivity]. }
+  unfold bm_decode. fold z. rewrite E0, E1, of_le_4 by lia. rewrite E5, of_le_4 by lia.
+  destruct (len <? 5) eqn:C1; [reflexivity|].
+  destruct ((2 <? 2) || (65536 <? card)) eqn:C2; [reflexivity|].
+  change (2 =? 0) with false. change (2 =? 1) with false. cbv iota.
+  destruct (len - 5 <? 4) eqn:C3; [reflexivity|].
+  destruct ((card <? nr) || ((len - 5 - 4) / 4 <? nr)) eqn:C4; [reflexivity|lia].
+Qed.
+
+Theorem decode_truncated s : bm_Inv s -> forall tl len, len < bm_lenN (bm_encode s) ->
+  fst (bm_decode (bm_encode s ++ tl) len) = None.
+Proof.
+  intros H tl len Hlen. destruct s as [card c]. unfold bm_Inv in H. cbn [bm_c bm_card] in H.
+  unfold bm_encode in *. destruct c as [R cap|m|runs cap]; cbn [bm_c bm_card bm_type app] in *.
+  - rewrite arr_values_rev in *. change BM_ARRAY with 0 in *.
+    apply (decode_truncated_array card R cap tl len H).
+    rewrite lenN_cons, lenN_app, lenN_le_bytes, length_enc_u16s, lenN_rev in Hlen.
+    destruct H as (Hc & _). lia.
+  - change BM_BITMAP with 1 in *.
+    apply (decode_truncated_bits card m tl len H).
+    rewrite lenN_cons, lenN_app, lenN_le_bytes in Hlen. unfold bm_lenN in Hlen at 1. rewrite map_length in Hlen.
+    pose proof lenN_byte_idx as L. unfold bm_lenN in L. lia.
+  - change BM_RUNS with 2 in *.
+    apply (decode_truncated_runs card runs cap tl len H).
+    rewrite lenN_cons, !lenN_app, !lenN_le_bytes, length_enc_runs in Hlen. lia.
+Qed.
